@@ -1,5 +1,198 @@
 import Ecal.Drivers.Util
+import Ecal.Model.Debug
+/-!
+Driver of C15.
+
+Case payloads (space separated fields):
+
+* `D <n> <bos><boe> <bpops> <script> <timing> <seed> <trace> <prog-hex>` — `n` threads run the
+  same program (visit trace `<trace>`), break points after the edits `<bpops>`, every thread's
+  suspensions are answered from `<script>`. Result `same=1 susp=<lines of thread 1>|<thread 2>…`.
+  `timing`, `seed` and the program text do not enter the model: by `no_lost_resume` /
+  `continue_releases` the timing of a Continue is irrelevant, by `observer_only` so is the program.
+* `K <n> <bpops> <trace> <prog-hex>` — `n` threads, each suspension is answered by `StopThreads`.
+  Result `released=<n> end=kill|fin`.
+* `S …` — sink programs on several workers: the model's answer is the constant the property
+  demands (`same=1 ok=1`); the recorded per-thread traces are validated in mode `vt`.
+
+Syntax: `bpops` = `s<line>`/`d<line>`/`r<line>`/`b0`/`b1` joined by `,`; `script` = acts joined by `,`,
+an act = ops joined by `+`, then `R|I|O|U|K` (resume, stepin, stepover, stepout, StopThreads);
+`trace` = `v<line>` / `e<line>` / `x<line>` / `X<line>` (exit with error) / `f` joined by `,`;
+`-` = empty list.
+
+Other modes (first argument):
+* `hs`: each line is a recorded handshake trace of one thread (hook events); it is replayed on
+  the transition system `Hs.step`. Result `ok <final pc>` or `rejected@<k>:<event>`.
+* `vt`: each line `<bos><boe> <bpops> <script> <trace-with-suspension-marks>`: a recorded visit
+  trace of one thread in which `!<line>` marks a reported suspension; result `ok` if the model
+  suspends at exactly those places.
+-/
 namespace Ecal.Drv.C15
-/-- model driver of property C15 (stub: not implemented yet) -/
-def run (_args : List String) : IO Unit := Ecal.Drv.lineLoop fun _ => "unimplemented"
+open Ecal.Drv Ecal.Debug
+
+def list (s : String) (sep : String) : List String :=
+  if s = "-" || s = "" then [] else s.splitOn sep
+
+def natOf (s : String) : Option Nat := s.toNat?
+
+def loc (n : Nat) : Loc := ⟨0, n⟩
+
+def parseOp (s : String) : Option BpOp :=
+  let rest := (s.drop 1).toString
+  match s.front with
+  | 's' => (natOf rest).map fun n => BpOp.set (loc n)
+  | 'd' => (natOf rest).map fun n => BpOp.disable (loc n)
+  | 'r' => (natOf rest).map fun n => BpOp.remove (loc n)
+  | 'b' => (natOf rest).map fun n => BpOp.breakOnStart (n != 0)
+  | _ => none
+
+def parseAct (s : String) : Option Act := do
+  let parts := s.splitOn "+"
+  let cmdS ← parts.getLast?
+  let ops ← parts.dropLast.mapM parseOp
+  let cmd ← match cmdS with
+    | "R" => some (some Cont.resume)
+    | "I" => some (some Cont.stepIn)
+    | "O" => some (some Cont.stepOver)
+    | "U" => some (some Cont.stepOut)
+    | "K" => some none
+    | _ => none
+  pure ⟨ops, cmd⟩
+
+def parseEv (s : String) : Option Ev :=
+  let rest := (s.drop 1).toString
+  match s.front with
+  | 'v' => (natOf rest).map fun n => Ev.visit (loc n)
+  | 'e' => (natOf rest).map fun n => Ev.enter (loc n)
+  | 'x' => (natOf rest).map fun n => Ev.exit (loc n) false
+  | 'X' => (natOf rest).map fun n => Ev.exit (loc n) true
+  | 'f' => some Ev.finished
+  | _ => none
+
+def flagsOf (s : String) : Bool × Bool :=
+  match s.toList with
+  | [a, b] => (a = '1', b = '1')
+  | _ => (false, true)
+
+def showLines (ls : List Loc) : String :=
+  if ls.isEmpty then "-" else ".".intercalate (ls.map fun l => toString l.line)
+
+/-- number of visits that passed a line with an active break point while a step-over /
+step-out was pending (see `stepping_passes_breakpoints`) -/
+def skippedBps (r : Run) (t : List Ev) : Nat :=
+  let rec go (r : Run) (t : List Ev) (k : Nat) : Nat :=
+    match t with
+    | [] => k
+    | e :: rest =>
+      let r' := stepEv r e
+      let k := match e, r.d.is with
+        | .visit l, some is =>
+          if is.cmd = Cmd.stepOut && bpActive r.d.bps l && !r.killed && !r.crashed then k + 1 else k
+        | _, _ => k
+      go r' rest k
+  go r t 0
+
+def setup (flags bpops : String) : Option Dbg := do
+  let (bos, boe) := flagsOf flags
+  let ops ← (list bpops ",").mapM parseOp
+  pure (ops.foldl applyOp (Dbg.init bos boe))
+
+def caseD (f : List String) : String :=
+  match f with
+  | [n, flags, bpops, script, _timing, _seed, trace, _prog] =>
+    match natOf n, setup flags bpops, (list script ",").mapM parseAct, (list trace ",").mapM parseEv with
+    | some n, some d, some sc, some t =>
+      let r0 := Run.init d sc
+      let r := runTrace r0 t
+      if r.crashed then "MODEL-CRASH"
+      else
+        let one := showLines r.susp
+        let all := "|".intercalate (List.replicate n one)
+        let sk := skippedBps r0 t
+        "same=1 susp=" ++ all ++ (if r.killed then " killed" else "")
+          ++ (if r.susp.isEmpty then "" else "\tnt=1")
+          ++ (if sk > 0 then s!"\tskipbp={sk}" else "")
+    | _, _, _, _ => "bad-payload"
+  | _ => "bad-payload"
+
+def caseK (f : List String) : String :=
+  match f with
+  | [n, bpops, trace, _prog] =>
+    match natOf n, setup "00" bpops, (list trace ",").mapM parseEv with
+    | some n, some d, some t =>
+      let kill : Act := ⟨[], none⟩
+      let r := runTrace (Run.init d (List.replicate (t.length + 1) kill)) t
+      if r.susp.isEmpty then "released=0 end=fin"
+      else s!"released={n} end=" ++ (if r.killed then "kill" else "fin") ++ "\tnt=1"
+    | _, _, _ => "bad-payload"
+  | _ => "bad-payload"
+
+def runCase (payload : String) : String :=
+  match payload.splitOn " " with
+  | "D" :: rest => caseD rest
+  | "K" :: rest => caseK rest
+  | "S" :: _ => "same=1 ok=1\tnt=1"
+  | _ => "bad-payload"
+
+/-! ### mode `hs`: replay of recorded handshake traces -/
+
+open Hs in
+/-- hook event ↦ model events. `m` suspend.pre, `w` wait, `k` woke, `r` resumed,
+`cR|cI|cO|cU` continue, `t` stop (StopThreads), `s` setrunning, `p` phantom -/
+def hsEvents (s : State) (tok : String) : Option (List Event) :=
+  match tok with
+  | "m" => some [.mark]
+  | "p" => some [.phantom]
+  | "w" => some (if s.pc = .marked then [.tlock, .test] else [.test])
+  | "k" => some [.wake]
+  | "r" => some (if s.pc = .marked then [.tlock, .test] else [.test])
+  | "cR" => some [.cCheck .resume, .cSetCmd]
+  | "cI" => some [.cCheck .stepIn, .cSetCmd]
+  | "cO" => some [.cCheck .stepOver, .cSetCmd]
+  | "cU" => some [.cCheck .stepOut, .cSetCmd]
+  | "t" => some [.cCheck .kill, .cSetCmd]
+  | "s" => some [.cFire]
+  | _ => none
+
+open Hs in
+/-- the observable a hook event asserts about the state reached -/
+def hsExpect (s : State) (tok : String) : Bool :=
+  match tok with
+  | "w" => s.pc = .waiting
+  | "r" => s.pc = .run
+  | _ => true
+
+open Hs in
+def hsReplay (toks : List String) : String :=
+  let rec go (s : State) (k : Nat) : List String → String
+    | [] => s!"ok {repr s.pc}"
+    | tok :: rest =>
+      match hsEvents s tok with
+      | none => s!"bad-token@{k}:{tok}"
+      | some es =>
+        match runEvents s es with
+        | none => s!"rejected@{k}:{tok}"
+        | some s' => if hsExpect s' tok then go s' (k + 1) rest else s!"rejected@{k}:{tok}"
+  go Hs.init 0 toks
+
+/-! ### mode `vt`: recorded visit traces with suspension marks -/
+
+def vtCase (payload : String) : String :=
+  match payload.splitOn " " with
+  | [flags, bpops, script, trace] =>
+    let toks := list trace ","
+    let evToks := toks.filter fun t => !t.startsWith "!"
+    let marks := toks.filterMap fun t => if t.startsWith "!" then natOf (t.drop 1).toString else none
+    match setup flags bpops, (list script ",").mapM parseAct, evToks.mapM parseEv with
+    | some d, some sc, some t =>
+      let r := runTrace (Run.init d sc) t
+      if r.susp.map (·.line) = marks then "ok" else "differs model=" ++ showLines r.susp
+    | _, _, _ => "bad-payload"
+  | _ => "bad-payload"
+
+def run (args : List String) : IO Unit :=
+  match args with
+  | "hs" :: _ => lineLoop fun p => hsReplay (list p ",")
+  | "vt" :: _ => lineLoop vtCase
+  | _ => lineLoop runCase
 end Ecal.Drv.C15
